@@ -37,6 +37,10 @@ func NewTableConfig(spoolDir, badMetricsMaxAge string, vLegacy validate.LevelLeg
 	if err != nil {
 		return TableConfig{}, fmt.Errorf("could not parse badMetrics max age: %s", err.Error())
 	}
+	// the bad metrics tracker cleans up every maxAge/10, using a ticker
+	if maxAge/10 <= 0 {
+		return TableConfig{}, fmt.Errorf("badMetrics max age %q is too small", badMetricsMaxAge)
+	}
 
 	return TableConfig{
 		spoolDir,
